@@ -20,6 +20,7 @@ type Case struct {
 	D    string  `json:"d"`
 	Amps []int64 `json:"amps"`
 	Pad  int     `json:"pad,omitempty"` // the amplitudes are repeated cyclically up to this buffer length
+	Fix  int     `json:"fix,omitempty"` // source construction order, see convtab.Entry.NewBlockFix
 }
 
 var Pairs = convtab.Select("SignedAsFloat", "UnsignedAsFloat")
@@ -59,10 +60,12 @@ type Runner struct {
 	KnownEx *Case
 }
 
-func NewRunner(e *convtab.Entry, env kit.Env) *Runner {
-	r := &Runner{E: e, env: env, blk: e.NewBlock()}
+func NewRunner(e *convtab.Entry, env kit.Env) *Runner { return NewRunnerFix(e, env, 0) }
+
+func NewRunnerFix(e *convtab.Entry, env kit.Env, fix int) *Runner {
+	r := &Runner{E: e, env: env, blk: e.NewBlockFix(fix)}
 	r.back = convtab.Lookup(e.D.Name, e.S.Name) // FloatAsSigned / FloatAsUnsigned back into S
-	r.bblk = r.back.NewBlock()
+	r.bblk = r.back.NewBlockFix(fix)
 	return r
 }
 
@@ -150,7 +153,7 @@ func Check(c *Case) (res kit.Result) {
 	}
 	d := e.S.Bits
 	lo, hi := numkit.Lo(d), numkit.Hi(d)
-	if c.Pad < 0 || c.Pad > 1<<20 {
+	if c.Pad < 0 || c.Pad > 1<<20 || c.Fix < 0 || c.Fix > 2 {
 		return
 	}
 	in := kit.PadInts(append([]int64{lo, 0, hi}, c.Amps...), c.Pad)
@@ -163,7 +166,7 @@ func Check(c *Case) (res kit.Result) {
 		}
 	}
 	sort.Slice(in, func(i, j int) bool { return in[i] < in[j] })
-	r := NewRunner(e, kit.GetEnv(Property))
+	r := NewRunnerFix(e, kit.GetEnv(Property), c.Fix)
 	var msg string
 	if p, v := kit.Try(func() { msg = r.Run(in) }); p {
 		res.Failf("%s panicked: %v", e, v)
@@ -196,6 +199,7 @@ func FP(c *Case) uint64 {
 	h.Str(c.D)
 	h.Int(len(c.Amps))
 	h.Int(c.Pad)
+	h.Int(c.Fix)
 	for _, a := range c.Amps {
 		h.U64(uint64(a))
 	}
@@ -211,6 +215,7 @@ func Gen(t *rapid.T) *Case {
 	}
 	c := &Case{S: e.S.Name, D: e.D.Name}
 	c.Pad = kit.GenPad(t)
+	c.Fix = rapid.IntRange(0, 2).Draw(t, "fix")
 	n := rapid.IntRange(1, 24).Draw(t, "n")
 	base := kit.GenAmp(t, e.S.Bits, BAmps[e.S.Bits])
 	for i := 0; i < n; i++ {
